@@ -89,7 +89,17 @@ func c08(c *ctx) {
 			g = gram.Random(r, p)
 			kind = "no-terminals"
 		default:
-			g = gram.Random(r, gram.AllOps())
+			if i%12 == 5 {
+				// accepted with warnings only: unused rules, undefined names, left recursion (the output must still be
+				// a valid Go file: "every grammar the front end accepts")
+				g, _ = gram.Planted(r)
+				for len(g.Diagnose().Duplicate) > 0 {
+					g, _ = gram.Planted(r)
+				}
+				kind = "warned"
+			} else {
+				g = gram.Random(r, gram.AllOps())
+			}
 		}
 		is := importSets[r.Intn(len(importSets))]
 		hasCap := g.Count(gram.KCapture) > 0
@@ -171,7 +181,7 @@ func c08(c *ctx) {
 					cs.text = text
 				}
 				cp.Add(&corpus.Job{Pkg: pkg, Text: text, Opts: v.opts, NoAST: v.noast, NoProbe: true, Type: typ,
-					Extra: map[string]string{"use.go": useFile(pkg, typ, v.noast, cs.g.Count(gram.KAction) > 0)}})
+					Extra: map[string]string{"use.go": useFile(pkg, typ, v.noast, reachableActions(cs.g) > 0)}})
 			}
 		}
 		cp.Generate()
@@ -194,7 +204,7 @@ func c08(c *ctx) {
 				switch {
 				case j.GenExit != 0 || len(j.GenOut) == 0:
 					c.run.Violate("generate:"+id, fmt.Sprintf("peg %v failed on an accepted grammar (exit %d): %s", v.opts, j.GenExit, firstLine(strings.TrimSpace(j.GenStderr))), w(nil))
-				case strings.TrimSpace(j.GenStderr) != "":
+				case strings.TrimSpace(j.GenStderr) != "" && cs.kind != "warned":
 					c.run.Violate("stderr:"+id, fmt.Sprintf("peg %v printed diagnostics for a clean grammar: %s", v.opts, firstLine(j.GenStderr)), w(nil))
 				case !j.Compiled:
 					c.run.Violate("compile:"+id, fmt.Sprintf("the file generated with %v does not compile: %s", v.opts, firstLine(strings.TrimSpace(j.CompErr))), w(map[string]any{"go_build": j.CompErr}))
@@ -224,9 +234,9 @@ func c08(c *ctx) {
 	if c.env.Tier == "thorough" {
 		c08huge(c, peg)
 	}
-	requireCov(c, "packages_ok", "grammars_many", "grammars_no", "grammars_surface", "grammars_profile")
-	c.run.Rule = "cases: grammars from all profiles plus a surface profile (user imports single/several/grouped/aliased/duplicating runtime imports/sorting differently with and without alias — each used by the parser state so that they are needed; header comments with # and // and blank-line runs; state with nested braces; literals and classes over NUL, control, quote, bracket, dash, caret, backslash, Latin-1, U+2028, non-BMP and U+10FFFF characters; actions, state changes and predicates containing /* */ and // comments, '*/' in strings, nested braces, raw strings; grammars without any terminal; captures nobody reads; actions without capture) and grammars of 130-430 rules (x1-3 actions each: beyond 255 rule ids); each generated with the real peg under all eight -inline/-switch/-noast combinations. " +
-		"Oracle: exit 0, empty stderr, the file compiles together with a file that uses the public API, and go/format.Source(file) == file. distinct_nontrivial = distinct emitted files (sha256 below the header line) that passed."
+	requireCov(c, "packages_ok", "grammars_many", "grammars_no", "grammars_surface", "grammars_profile", "grammars_warned")
+	c.run.Rule = "cases: grammars from all profiles plus a surface profile (user imports single/several/grouped/aliased/duplicating runtime imports/sorting differently with and without alias — each used by the parser state so that they are needed; header comments with # and // and blank-line runs; state with nested braces; literals and classes over NUL, control, quote, bracket, dash, caret, backslash, Latin-1, U+2028, non-BMP and U+10FFFF characters; actions, state changes and predicates containing /* */ and // comments, '*/' in strings, nested braces, raw strings; grammars without any terminal; captures nobody reads; actions without capture; grammars accepted with warnings only: unused rules, undefined names, left recursion) and grammars of 130-430 rules (x1-3 actions each: beyond 255 rule ids); each generated with the real peg under all eight -inline/-switch/-noast combinations. " +
+		"Oracle: exit 0, empty stderr (warnings only for the warned kind), the file compiles together with a file that uses the public API, and go/format.Source(file) == file. distinct_nontrivial = distinct emitted files (sha256 below the header line) that passed."
 	c.run.Assume("rule names R<n>/H<n>..., actions are valid Go; predicates are Go expressions (a trailing // comment inside a predicate is not an expression and is not generated); actions use text only in grammars with a capture")
 }
 
@@ -278,4 +288,19 @@ func c08huge(c *ctx, peg string) {
 	default:
 		c.run.Count("huge_grammar_ok", 1)
 	}
+}
+
+// reachableActions counts the actions in rules reachable from the first rule (Execute exists only if there is one).
+func reachableActions(g *gram.Grammar) int {
+	unused := map[string]bool{}
+	for _, n := range g.Diagnose().Unused {
+		unused[n] = true
+	}
+	n := 0
+	g.Walk(func(r *gram.Rule, e *gram.Expr) {
+		if e.K == gram.KAction && !unused[r.Name] {
+			n++
+		}
+	})
+	return n
 }
